@@ -19,7 +19,7 @@ from ..core import choice, draw_cfg
 from ..oracles import compare_restart
 from ..problems import FAMILIES, Problem, build_problem, draw_problem_spec
 from ..provenance import Universe, find_chain
-from ..world import Act, World, snap_bytes, snapshot
+from ..world import Act, Store, World, snap_bytes, snapshot
 from . import c10
 
 ID = "C13"
@@ -57,10 +57,10 @@ PLAN_TIMEOUT = 600
 
 def gen(rng, tier, index):
     spec = draw_problem_spec(rng, list(FAMILIES), nmax=10)
-    mode = str(choice(rng, ["identity", "identity", "rescale", "reweight", "reweight", "arbitrary", "arbitrary"]))
-    cfg = draw_cfg(rng, jac_modes=["callable"], allow_scaler=(mode == "identity"))
+    mode = str(choice(rng, ["identity", "identity", "identity_copy", "rescale", "reweight", "reweight", "arbitrary", "arbitrary"]))
+    cfg = draw_cfg(rng, jac_modes=["callable"], allow_scaler=(mode in ("identity", "identity_copy")))
     cfg["maxiter"] = int(rng.integers(3, 16))
-    if mode != "identity":
+    if mode not in ("identity", "identity_copy"):
         cfg["ftol"] = 0.0
         cfg["gtol"] = float(choice(rng, [0.0, 1e-10]))
     sw = {"mode": mode, "at": int(rng.integers(2, 9)), "seed": int(rng.integers(0, 2**31 - 1))}
@@ -74,6 +74,12 @@ def gen(rng, tier, index):
         sw["touch_newest"] = bool(rng.random() < 0.5)
     plan = {"problem": spec, "cfg": cfg, "switch": sw, "bind_both": bool(rng.random() < 0.5)}
     plan["target_across_switch"] = bool(rng.random() < 0.4)
+    if mode not in ("identity", "identity_copy"):
+        sw["inplace"] = bool(rng.random() < 0.3)
+        if rng.random() < 0.15:
+            # the rewrite happens at the start-up call of a restart (history restored from a checkpoint)
+            plan["restart_at"] = int(rng.integers(2, 8))
+            sw["at"] = 1
     return plan
 
 
@@ -108,7 +114,8 @@ def make_rewriter(problem, sw, info):
         info["fired"] = True
         info["event"] = rec["event"]
         info["pairs_at_switch"] = max(0, len(X) - 1)
-        info["pending_matrix_check"] = True
+        # live-memory check right after the rewrite (the start-up call has no update call of its own)
+        info["pending_matrix_check"] = j > 1
         mode = sw["mode"]
         if mode in ("rescale", "reweight"):
             newp = switched_problem(problem, sw)
@@ -125,7 +132,7 @@ def make_rewriter(problem, sw, info):
                 grad2 = np.asarray(grad) + lam * dr(np.asarray(x))
                 out = (newp.f(np.array(x, copy=True)), newp.f(np.array(X[-1], copy=True)) if len(X) else f0_old, grad2, G2)
             act.problem = newp  # the user's objective is the new one from now on
-            return out
+            return _maybe_inplace(sw, out, grad, G)
         # arbitrary: per-vector rewrites that break curvature for a seeded subset
         rng = np.random.Generator(np.random.PCG64([int(sw["seed"]), 13]))
         G2 = deque()
@@ -144,9 +151,26 @@ def make_rewriter(problem, sw, info):
         grad2 = np.array(grad, copy=True)
         if sw.get("touch_newest"):
             grad2 = grad2 + rng.standard_normal(grad2.size) * 0.5 * float(np.max(np.abs(grad2)) + 1e-3)
-        return f0, f0_old, grad2, G2
+        if np.array_equal(grad2, grad) and all(np.array_equal(a, b) for a, b in zip(G2, G)):
+            # the seeded subset left every vector as it was: nothing has been rewritten
+            rec["mode"] = "identity"
+            info["fired"] = False
+            info["pending_matrix_check"] = False
+            return f0, f0_old, grad, G
+        return _maybe_inplace(sw, (f0, f0_old, grad2, G2), grad, G)
 
     return rewriter
+
+
+def _maybe_inplace(sw, out, grad, G):
+    """A user may rewrite the arrays it was handed in place and return the very same objects."""
+    if not sw.get("inplace"):
+        return out
+    f0, f0_old, grad2, G2 = out
+    for gi, g2 in zip(G, G2):
+        gi[:] = g2
+    grad[:] = grad2
+    return f0, f0_old, grad, G
 
 
 def execute(plan):
@@ -163,7 +187,7 @@ def execute(plan):
         viol.append({"clause": clause, "witness": witness})
 
     # ------------------------------------------------------------------ identity
-    if sw["mode"] == "identity":
+    if sw["mode"] in ("identity", "identity_copy"):
         c0 = dict(cfg)
         c0["callback"] = {}
         if plan.get("bind_both"):
@@ -181,7 +205,7 @@ def execute(plan):
                 stats["probe.identity_target_and_ftol_bind_together"] += 1
         A = Act(problem, c0).run()
         c1 = dict(c0)
-        c1["update"] = {"mode": "identity"}
+        c1["update"] = {"mode": sw["mode"]}
         B = Act(problem, c1).run()
         stats["activations"] += 2
         stats["events"] += A.n_events + B.n_events
@@ -203,7 +227,7 @@ def execute(plan):
         elif [e for e in B.events if e[0] != "update"] != A.events:
             add("identity_update_changed_calls", {})
         if int(A.result.nit) >= 2:
-            keys.add("|".join(str(v) for v in (spec["family"], spec["box"], spec["n"], cfg["maxcor"], "identity", str(A.result.message)[:18], bool(plan.get("bind_both")))))
+            keys.add("|".join(str(v) for v in (spec["family"], spec["box"], spec["n"], cfg["maxcor"], sw["mode"], str(A.result.message)[:18], bool(plan.get("bind_both")), any(not u[1] for u in A.up_log))))
         return {"violations": viol, "stats": stats, "keys": keys, "digest": B.event_digest(), "shape": {"mode": "identity"}}
 
     # ------------------------------------------------------------------- rewrite
@@ -262,7 +286,11 @@ def execute(plan):
         if not info["fired"]:
             advance(act)
             return
-        at_switch = "state_index" not in switch_state
+        # (a rewrite at the start-up call has no callback of its own: the first state seen belongs
+        # to the next iteration, in which an ordinary refused pair is legal)
+        at_switch = "state_index" not in switch_state and sw["at"] > 1
+        if sw["at"] == 1 and "state_index" not in switch_state:
+            switch_state["state_index"] = -1
         if at_switch:
             switch_state["state_index"] = len(act.states) - 1
             switch_state["eager"] = pickle.dumps(state, protocol=4)
@@ -307,12 +335,34 @@ def execute(plan):
             if np.isfinite(gap) and gap > 0:
                 c["ftarget"] = float(f_at + 0.5 * gap)
                 stats["probe.target_across_switch"] += 1
-    A = Act(problem, c, world=W, on_state=on_state, on_update=on_update).run()
+    ck0 = None
+    if plan.get("restart_at"):
+        p0 = dict(cfg)
+        p0.update(maxiter=int(plan["restart_at"]), callback=None, update=None, ftarget=None)
+        P0 = Act(problem, p0).run()
+        stats["activations"] += 1
+        if P0.result is None or int(P0.result.nit) != int(plan["restart_at"]):
+            stats["nj.no_checkpoint_for_startup_rewrite"] += 1
+            return {"violations": viol, "stats": stats, "keys": keys, "digest": P0.event_digest()}
+        ck0 = Store.loads(Store.dumps(P0.result))
+        c["maxiter"] = int(P0.result.nit) + int(cfg["maxiter"])
+        # (the restored points and the restart point enter the universe, oldest first, when the
+        # start-up update event is read)
+        stats["probe.rewrite_at_startup_of_restart"] += 1
+    A = Act(problem, c, world=W, checkpoint=ck0, on_state=on_state, on_update=on_update).run()
     stats["activations"] += 1
     stats["events"] += A.n_events
     if A.result is None:
         if A.exc is not None and info["fired"]:
-            if sw["mode"] == "arbitrary" and isinstance(A.exc, np.linalg.LinAlgError):
+            last_sy = None
+            if A.states:
+                sn = A.states[-1]["snap"]
+                last_sy = np.sum(sn["sk"] * sn["yk"], axis=1) if sn["sk"].size else None
+            if last_sy is not None and (last_sy > 0).all() and float(np.min(last_sy)) < 1e-200:
+                # a run forced to go on after convergence (gtol = ftol = 0): s.y has reached the
+                # underflow range and 1/(s.y) overflows in the factorisation - no rewrite involved
+                stats["nj.underflow_regime"] += 1
+            elif sw["mode"] == "arbitrary" and isinstance(A.exc, np.linalg.LinAlgError):
                 # arbitrary rewrites belong to no objective: pairs that all satisfy the curvature
                 # condition can still differ by ten orders of magnitude in s.y, and the Cholesky
                 # factorisation of the middle matrix then breaks down numerically (a negative s.y
@@ -343,7 +393,7 @@ def execute(plan):
 
     # ---- (c) recovery equivalence on the switched objective
     verdict = "none"
-    if sw["mode"] in ("rescale", "reweight") and "state_index" in switch_state:
+    if sw["mode"] in ("rescale", "reweight") and switch_state.get("state_index", -1) >= 0:
         i = switch_state["state_index"]
         nit = switch_state["nit"]
         if i + 1 < len(A.states) and A.states[i + 1]["snap"]["nit"] == nit + 1:
